@@ -100,6 +100,9 @@ def cmd_run(a):
             continue
         meta = json.load(open(os.path.join(d, "meta.json")))
         prop = meta["property"].upper()
+        if meta.get("obsolete") and not a.ids:
+            print("%s: obsolete (superseded by a later fix: commit), skipped" % name)
+            continue
         wt = worktree()
         try:
             ap = sh(["git", "-C", wt, "apply", os.path.join(d, "patch.diff")])
